@@ -58,6 +58,10 @@ const (
 	period = validity - 2*skew
 	// maxLifetime is taken from the statement, not from the code.
 	maxLifetime = 14 * 24 * time.Hour
+	// maxInFlight bounds how long a handshake that a listener has begun may stay in flight
+	// before its Noise payload is serialised (listener.go: handshakeTimeout = 10 s). Longer
+	// gaps between "list fetched" and "list serialised" are not judged.
+	maxInFlight = 10 * time.Second
 )
 
 // Identifiers of the two defects this check found (see TestWitness_*).
@@ -80,15 +84,22 @@ func TestMain(m *testing.M) {
 			"Oracle per dial (dialer modelled from the statement: real verifyRawCerts against the hashes of the learnt address, then every hash of the learnt address must be in the manager's SerializedCertHashes): "+
 			"must complete while the instance the address was learnt from keeps running and serves the learn period or the following one; beyond that only 'a certificate whose hash is not in the address is refused'; "+
 			"against a restarted instance only the certificate check is demanded (whether it confirms the older hash is a label). "+
+			"In-flight handshakes (value semantics of what the manager hands out): at every sample of a manager a handshake begins - TLS presents the served certificate and the listener fetches SerializedCertHashes(), whose slices are KEPT as handed out (not copied); "+
+			"at every later sample of that manager within the listener's 10 s handshake timeout (the gaps are those of the timeline: 1 ns / 500 us / 1 ms / 1 s before a rotation instant and the rotation instant itself, among others) the kept list is read again as the Noise layer would serialise it then: "+
+			"it must decode, hold the hash of the certificate served when the handshake began and hold every hash of every address that this running instance advertised, up to that instant, in the period of the fetch or the previous one - also when the manager rolled over (its 1st, 2nd, ... rollover) in between. "+
 			"Non-trivial = some sample lies within 1 ms of a rotation boundary (NotBefore+skew / NotAfter-skew) or follows a restart; distinct = (key kind, offset class, start class, step classes, rollovers). "+
 			"Verifier: generated (chain of 0/1/2 certs, hash list, verification instant) against the reference predicate; non-trivial = at most one conjunct of the predicate fails; distinct = class tuple. "+
 			"DialledHashes (real transport.Dial over loopback UDP against a real listener on a pinned mock clock, 2 listeners per shard): rapid draws the certhash SEQUENCE of the dialled address, 0..5 elements, every element = "+
 			"(multihash code, digest, position): served sha2-256 | the other confirmed sha2-256 | bogus / bit-flipped sha2-256 | the served or the other confirmed digest under another code | the genuine digest of the served certificate under another hash function | a foreign digest under another hash function, "+
 			"codes sha2-512, sha3-224/256/512, keccak-224/256, blake2b-256/512, blake2s-256, blake3, sha1, md5, dbl-sha2-256, identity, an unnamed code and a private-use code; "+
 			"plans: all confirmed incl. served (control), exactly one unconfirmed element first / in the middle / last among confirmed ones, served hash absent, only non-sha2-256 hashes, only unconfirmed hashes, free mix, no certhash. "+
+			"Independently of the certhash sequence rapid draws the NAME-carrying components of the dialled address {none: /ip4/../quic-v1/webtransport | /ip4/../quic-v1/sni/<name>/webtransport (the shape transport.Resolve produces) | /dns4/<name>/.. | /dns4/<name>/../sni/<name>/..; 3 names} "+
+			"and the dialling transport's own TLS client configuration (WithTLSClientConfig) {none | InsecureSkipVerify | chain check against a private pool holding the listeners' certificates, no name check | InsecureSkipVerify + accepting VerifyConnection hook | RootCAs = that pool with standard verification}: "+
+			"three of the five configurations would accept the listener's certificate on their own, so that for an address with 0 certhashes nothing but the statement's pin rule stands between the dial and completion. "+
 			"Oracle: what the listener serves (rawCerts[0]) and confirms (certhashes of its Noise handshake payload) is observed by a reference client made of quic-go + webtransport-go + noise, without code of the package; "+
-			"a dial may complete only if SHA-256(served leaf) is a sha2-256 hash of the address AND every certhash of the address, whatever its code and position, is in the confirmed list; control: if both hold the dial must complete. "+
-			"Non-trivial = at most one reason to refuse (control, exactly one unconfirmed element, or only the served hash missing); distinct = (plan, sequence of element kinds incl. code). "+
+			"a dial may complete only if SHA-256(served leaf) is a sha2-256 hash of the address AND every certhash of the address, whatever its code and position, is in the confirmed list - whatever names the address carries and whatever the client's TLS configuration would accept; "+
+			"control: if both hold the dial must complete (not demanded of unresolved /dns4 addresses, which the transport cannot reach). "+
+			"Non-trivial = at most one reason to refuse (control, exactly one unconfirmed element, or only the served hash missing); an address without certhash counts only if it is reachable and the client's TLS configuration accepts the certificate; distinct = (plan, sequence of element kinds incl. code, name components, client TLS class). "+
 			"TransportListenHistory (the REAL transport: webtransport.New + Listen, quicreuse, quic-go, http3 server, inside a bubble on virtual time over an in-memory UDP stack with a bind table): rapid draws a host key, a start instant as in Timeline and a HISTORY of 2..7 steps on ONE transport, "+
 			"every step = an action {Listen on a free address | Listen that is bound to FAIL (UDP address held by a foreign socket = EADDRINUSE, non-local IP = EADDRNOTAVAIL, the address of a live listener of this transport, /quic-v1 without /webtransport, a /certhash in the listen address, a tcp address) | close a live listener (also the last one) | a dialer learns the address a live listener advertises | nothing} "+
 			"followed by a clock move {to the next rotation instant + delta as in Timeline | a fraction of the way | a jump of up to 2.5 periods | stay}; the failing Listen comes before any listener exists (the first Listen of the transport), while 1..4 listeners are live, or after all were closed. "+
@@ -494,6 +505,22 @@ type learner struct {
 	lastDialQ int // evidence only
 }
 
+// inflight is a handshake the listener m began at instant `at`: TLS presented the
+// certificate served then (sum) and the listener fetched the hash list it is going to
+// confirm (SerializedCertHashes(), what listener.handshake hands to the Noise session as
+// early data). The Noise layer serialises THAT list one or more round trips later, so the
+// slices are kept exactly as they were handed out (not copied) and read again at later
+// sampled instants, possibly after the manager rolled over.
+type inflight struct {
+	m     *mgr
+	at    time.Time
+	idx   int      // certificate period at the fetch instant
+	rolls int      // rollovers m had performed at the fetch instant
+	sum   [32]byte // SHA-256 of the certificate served at the fetch instant
+	list  [][]byte // as handed out by the manager (kept, NOT copied)
+	then  [][]byte // deep copy taken at the fetch instant (for the message only)
+}
+
 type mgr struct {
 	name    string
 	h       *wt.VerifCertManager
@@ -513,8 +540,11 @@ type world struct {
 	periods  []*periodRec
 	adverts  map[string]*advert // deduplicated by (period, kind, hash set)
 	learners []*learner
+	inflight []*inflight
 
 	// evidence
+	inflightReads  int // reads of a kept list at a later instant
+	inflightAcross int // ... of which after a rollover of the manager that handed it out
 	rollovers      int
 	restarts       int
 	twins          int
@@ -685,7 +715,8 @@ func (w *world) sample(m *mgr, why string) {
 	m.lastSum = sum
 
 	// advertisements contain the served hash
-	ser := decodeSerialized(rt, at, m.h.SerializedCertHashes())
+	serRaw := m.h.SerializedCertHashes()
+	ser := decodeSerialized(rt, at, serRaw)
 	addr := decodeAddr(rt, at, m.h.AddrComponent())
 	if !ser.hasSHA256(sum) {
 		rt.Fatalf("%s: SerializedCertHashes() %v lacks the sha2-256 hash %x of the served certificate", at, ser, sum[:6])
@@ -733,6 +764,99 @@ func (w *world) sample(m *mgr, why string) {
 			}
 		}
 	}
+
+	// handshakes of m that are still in flight serialise, now, the list they fetched when they began
+	w.readInflight(m, at)
+	// ... and a handshake begins now: TLS presents `raw`, the listener fetches serRaw
+	f := &inflight{m: m, at: now, idx: cur.idx, rolls: m.rolls, sum: sum, list: serRaw}
+	for _, b := range serRaw {
+		f.then = append(f.then, bytes.Clone(b))
+	}
+	w.inflight = append(w.inflight, f)
+}
+
+func hexList(l [][]byte) string {
+	parts := make([]string, 0, len(l))
+	for _, b := range l {
+		parts = append(parts, fmt.Sprintf("%x..", b[:min(8, len(b))]))
+	}
+	return "[" + strings.Join(parts, " ") + "]"
+}
+
+// readInflight: every handshake that listener m began at most maxInFlight ago sends, now,
+// the hash list it fetched when it began. From the statement: the dialer of such a
+// handshake was served the certificate of the fetch instant and may have dialled any
+// address this running listener advertised in the period of the fetch instant or in the
+// previous one ("an address learned at any time keeps verifying through the current and
+// the following certificate period"); it completes only if the list it receives confirms
+// every hash it relied on. So the list, as it reads NOW, must still decode, hold the hash
+// of the certificate that was served in that handshake, and hold every hash of every such
+// address - whatever the manager did in between (value semantics of what was handed out).
+func (w *world) readInflight(m *mgr, at string) {
+	rt := w.rt
+	now := time.Now()
+	keep := w.inflight[:0]
+	for _, f := range w.inflight {
+		if f.m.closed || now.Sub(f.at) > maxInFlight {
+			continue // the handshake is over (listener closed / timed out)
+		}
+		keep = append(keep, f)
+		if f.m != m || !now.After(f.at) {
+			continue
+		}
+		w.inflightReads++
+		across := m.rolls > f.rolls
+		hs := func() string {
+			return fmt.Sprintf("%s: a handshake this listener began at %s (%v ago, certificate period %d, %d rollover(s) of the listener before, %d since) fetched the hash list %s to confirm; now that the Noise payload is serialised it reads %s",
+				at, ts(f.at), now.Sub(f.at), f.idx, f.rolls, m.rolls-f.rolls, hexList(f.then), hexList(f.list))
+		}
+		var got hashSet
+		for _, b := range f.list {
+			dh, err := multihash.Decode(b)
+			if err != nil {
+				rt.Fatalf("%s: undecodable multihash %x: %v", hs(), b, err)
+			}
+			got = append(got, *dh)
+		}
+		if !got.hasSHA256(f.sum) {
+			rt.Fatalf("%s, which lacks the hash %x of the certificate that was served in that handshake", hs(), f.sum[:6])
+		}
+		prevRelied := false
+		for _, ad := range w.adverts {
+			if ad.kind != "addr" || !ad.srcs[m] || ad.at.After(f.at) || (ad.idx != f.idx && ad.idx != f.idx-1) {
+				continue
+			}
+			if !got.superset(ad.hs) {
+				what := "the same"
+				if ad.idx != f.idx {
+					what = "the previous"
+				}
+				rt.Fatalf("%s, which no longer contains every hash of the address %v that this very listener advertised at %s in %s certificate period: a dialer that dialled that address when the handshake began (inside its promised lifetime, and served a certificate it pins) is refused ('missing cert hash')",
+					hs(), ad.hs, ts(ad.at), what)
+			}
+			if ad.idx != f.idx {
+				prevRelied = true
+			}
+		}
+		if across {
+			w.inflightAcross++
+			w.label(fmt.Sprintf("inflight:handshake-straddles-rollover/listener-had-rolled-before=%v", f.rolls > 0))
+			if prevRelied {
+				w.label("inflight:handshake-straddles-rollover/address-of-previous-period-relied-on")
+			}
+			switch gap := now.Sub(f.at); {
+			case gap <= time.Microsecond:
+				w.label("inflight:straddle-gap<=1us")
+			case gap <= time.Millisecond:
+				w.label("inflight:straddle-gap<=1ms")
+			case gap <= time.Second:
+				w.label("inflight:straddle-gap<=1s")
+			default:
+				w.label("inflight:straddle-gap<=10s")
+			}
+		}
+	}
+	w.inflight = keep
 }
 
 func (w *world) record(m *mgr, ad *advert) {
@@ -1009,6 +1133,12 @@ func TestTimeline(t *testing.T) {
 		}
 		if w.dialsAcross > 0 {
 			labels = append(labels, "dial:running-listener-across-rollover")
+		}
+		if w.inflightReads > 0 {
+			labels = append(labels, "inflight:kept-hash-list-read-at-a-later-instant")
+		}
+		if w.inflightAcross > 0 {
+			labels = append(labels, "inflight:handshake-straddles-rollover")
 		}
 		labels = append(labels, fmt.Sprintf("learners=%d", min(len(w.learners), 8)/2*2))
 		for l := range w.labels {
